@@ -45,6 +45,9 @@ type sessM struct {
 	created     time.Time
 	lastUse     time.Time
 	invalidated bool
+	// oddKey: registered directly in the cache with key material that cannot be installed
+	// (not 32 bytes): it has "a key" but nothing can ever prove possession of it
+	oddKey bool
 }
 
 func (x *sessM) deadline(max bool) time.Time {
@@ -90,6 +93,9 @@ func (w *world) serve(pr *hs.Pair, res *srvResult) {
 	// subject, not this property's (keys and dead sessions).
 	rcfg := w.scfg()
 	rcfg.Authentication = security.SecurityOptional
+	if w.s.T.Chance("resume-enc-optional", 1, 3) {
+		rcfg.Encryption = security.SecurityOptional // a keyed session still resumes encrypted
+	}
 	a := security.NewAuthenticator(rcfg, st)
 	res.neg, res.hsErr = a.ServerHandshake(w.bg)
 	res.at = time.Now()
@@ -260,6 +266,14 @@ func (w *world) judge(x *sessM, rq request, r *reqResult, idIsReal bool, keyKind
 	desc := fmt.Sprintf("request %s (key %s, reply requested %v, from %s)", rq.what, keyKind, rq.response, rq.fromAddr)
 	resumed := r.srv.hsErr == nil && r.srv.neg != nil
 	s.Note("t=%v %s sid=%s -> resumed=%v hsErr=%v", now.Sub(s.Start), desc, rq.sid, resumed, r.srv.hsErr)
+	if idIsReal && x != nil && x.oddKey {
+		if resumed {
+			s.Violate("dead-or-keyless-session-resumed", "session key unusable/"+sig, fmt.Sprintf("%s: the cached session's key material cannot be installed, yet ServerHandshake resumed it (encrypted=%v) for a requester that only knows the id", desc, r.srv.neg.Encryption))
+			return false
+		}
+		s.Probe("refused:session key unusable")
+		return true
+	}
 	mustRefuse := !idIsReal || (x != nil && (x.definitelyDead(now) || x.keyless))
 	if mustRefuse {
 		why := "unknown id"
@@ -415,7 +429,7 @@ func runHistory(s *kernel.Sim, c *scen.Case) {
 			}
 			switch keyKind {
 			case "right":
-				if x != nil && !x.keyless {
+				if x != nil && !x.keyless && !x.oddKey {
 					rq.key = x.key
 				} else {
 					keyKind = "none"
@@ -454,6 +468,23 @@ func runHistory(s *kernel.Sim, c *scen.Case) {
 			s.Probe("invalidated")
 		case op == 4:
 			security.InvalidateExpiredSessions()
+		case op == 5 && len(sessions) < 3 && t.Chance("odd-key-session", 1, 3):
+			// a session registered programmatically (as claim import does) with 16 bytes of key
+			id := fmt.Sprintf("simhost:4242:946684800:odd%d", i)
+			pol := classad.New()
+			_ = pol.Set("Authenticated", true)
+			_ = pol.Set("User", "someone@pool.sim")
+			_ = pol.Set("AuthMethods", "CLAIMTOBE")
+			ki := &security.KeyInfo{Data: t.Bytes("oddkey", 16), Protocol: "AESGCM"}
+			if t.Chance("odd-protocol", 1, 2) {
+				// ... or a full-length key under a cipher cedar cannot run on the stream
+				ki = &security.KeyInfo{Data: t.Bytes("oddkey", 32), Protocol: "BLOWFISH"}
+			}
+			e := security.NewSessionEntry(id, "", ki, pol, time.Now().Add(duration*time.Second), lease*time.Second, "")
+			security.GetSessionCache().Store(e)
+			now := time.Now()
+			sessions = append(sessions, &sessM{id: id, key: nil, keyless: false, oddKey: true, authed: true, created: now, lastUse: now})
+			s.Probe("odd-key-session-registered")
 		default:
 			if !tryCatalogue() {
 				return
